@@ -47,11 +47,15 @@ class Run:
         self.undecided = []
 
     # -- recording -----------------------------------------------------------
+    rid_prefix = ""
+
     def rule(self, rid, text):
+        rid = self.rid_prefix + rid
         self.rules_text[rid] = squash(text)
         self.per_rule.setdefault(rid, [0, 0])
 
     def ok(self, rid, desc, where=None):
+        rid = self.rid_prefix + rid
         self.obligations += 1
         self.discharged += 1
         r = self.per_rule.setdefault(rid, [0, 0])
@@ -62,6 +66,7 @@ class Run:
                                  "where": where, "verdict": "holds"})
 
     def fail(self, rid, key, where, message, witness=None):
+        rid = self.rid_prefix + rid
         self.obligations += 1
         r = self.per_rule.setdefault(rid, [0, 0])
         r[0] += 1
@@ -79,6 +84,7 @@ class Run:
         return bool(cond)
 
     def floor(self, rid, what, found, minimum):
+        rid = self.rid_prefix + rid
         if found < minimum:
             raise AnalysisError(
                 f"{rid}: only {found} instance(s) of {what} found, floor is {minimum} "
